@@ -81,7 +81,9 @@ def ensure(repo=REPO, quiet=False):
                               key=lambda x: os.path.getmtime(os.path.join(CACHE, x)))
                 for old in sets[:-16]:
                     import shutil
-                    shutil.rmtree(os.path.join(CACHE, old), ignore_errors=True)
+                    # never remove a set another running check may be about to read (used within the last 20 minutes)
+                    if time.time() - os.path.getmtime(os.path.join(CACHE, old)) > 1200:
+                        shutil.rmtree(os.path.join(CACHE, old), ignore_errors=True)
         finally:
             fcntl.flock(lock, fcntl.LOCK_UN)
             lock.close()
@@ -93,12 +95,21 @@ _loaded = {}
 
 def load(repo=REPO):
     """Returns (mir_doc, shape_doc, hash, extraction_seconds)."""
-    facts, shape, hh, secs = ensure(repo)
-    if hh not in _loaded:
-        with open(facts) as fh:
-            mir = json.load(fh)
-        with open(shape) as fh:
-            sh = json.load(fh)
-        _loaded[hh] = (mir, sh)
+    for attempt in range(3):
+        facts, shape, hh, secs = ensure(repo)
+        if hh in _loaded:
+            break
+        try:
+            os.utime(os.path.dirname(facts))
+            with open(facts) as fh:
+                mir = json.load(fh)
+            with open(shape) as fh:
+                sh = json.load(fh)
+            _loaded[hh] = (mir, sh)
+            break
+        except (FileNotFoundError, json.JSONDecodeError):
+            # the set was pruned by a concurrent run between ensure() and open(): extract again
+            if attempt == 2:
+                raise
     mir, sh = _loaded[hh]
     return mir, sh, hh, secs
